@@ -321,3 +321,25 @@ func hasTxn(s *Cmd) bool {
 	}
 	return false
 }
+
+// ---- exported materialisation helpers (used by world W3) ---------------------
+
+func (c *Cfg) Key(i int) []byte                              { return c.key(i) }
+func (c *Cfg) ReqRange(o *OpSpec) *regattapb.RequestOp_Range { return c.reqRange(o) }
+func (c *Cfg) ReqOp(o *OpSpec) *regattapb.RequestOp          { return c.reqOp(o) }
+func (c *Cfg) TxnParts(t *TxnSpec) ([]*regattapb.Compare, []*regattapb.RequestOp, []*regattapb.RequestOp) {
+	return c.txn(t)
+}
+func (c *Cfg) Command(s *Cmd) *regattapb.Command { return c.command(s) }
+
+// KeyGen exposes the key-pool and value generators to other worlds.
+type KeyGen struct{ g *gen }
+
+func NewKeyGen(r *core.Rand, advers bool, minKeys int) *KeyGen {
+	g := &gen{r: r, p: profile{adversKeys: advers, minKeys: minKeys}, gm: nil}
+	g.cfg = &Cfg{}
+	g.cfg.Keys = g.genKeys()
+	return &KeyGen{g}
+}
+func (k *KeyGen) Keys() []QB { return k.g.cfg.Keys }
+func (k *KeyGen) Val() Val   { return k.g.val() }
